@@ -275,6 +275,7 @@ static void run_copy(int content, int way, int fate, const std::vector<int>& ops
         case W_COPY_ASSIGN: cp.reset(new CdnsBlock(bp_other, 0)); cp->add_ip_address("to-be-overwritten"); cp->add_question_response_record(P.qr[4]); *cp = *src; break;
         case W_MOVE_ASSIGN: cp.reset(new CdnsBlock(bp_other, 0)); cp->add_name_rdata("to-be-overwritten"); cp->add_malformed_message(P.mm[0]); *cp = std::move(*src); break;
         }
+        if (fate == F_KEPT && (way == W_COPY_CTOR || way == W_COPY_ASSIGN)) { CdnsBlock& alias = *cp; *cp = alias; }   // self-assignment keeps the value
         switch (fate) {
         case F_KEPT: break; case F_ADDED: src->add_ip_address("src-only"); src->add_name_rdata("src-only-name"); src->add_question_response_record(P.qr[4]); break;
         case F_CLEARED: src->clear(); break; case F_REFILLED: src->clear(); refill_different(*src); break; case F_DESTROYED: src.reset(); break;
@@ -299,6 +300,7 @@ static void run_copy(int content, int way, int fate, const std::vector<int>& ops
                 std::string other = file_of(1, P, bp_other); std::istringstream io(other); CdnsReader ro(io); bool eo; cp.reset(new CdnsBlockRead(ro.read_block(eo)));
                 if (way == W_READ_COPY_ASSIGN) *cp = *src; else *cp = std::move(*src); break; }
             }
+            if (fate == F_KEPT && (way == W_READ_COPY_CTOR || way == W_READ_COPY_ASSIGN)) { CdnsBlockRead& alias = *cp; *cp = alias; }   // self-assignment keeps the value
             switch (fate) {
             case F_KEPT: break; case F_ADDED: src->add_ip_address("src-only"); src->add_name_rdata("src-only-name"); break;
             case F_CLEARED: src->clear(); break; case F_REFILLED: src->clear(); refill_different(*src); break; case F_DESTROYED: src.reset(); r1.reset(); is1.reset(); break;
